@@ -83,7 +83,25 @@ def o_callsite(_):
     return o_prefix({"key": ",", "args": [["F", "d"]]})[:2]
 
 
-ORACLES = {"prefix_untouched": o_prefix, "function_value_applied": o_callsite}
+def o_whole(inp):
+    """the documented whole-stack operations may reach every entry — and must do exactly what they are documented to do with
+    them: nothing lost, nothing invented, nothing taken apart. (Over `Ȯ` and the rotations need two entries; below that inputs
+    come into play, which is C11's subject.)"""
+    key, st = inp["key"], [decode(a, True) for a in inp["stack"]]
+    want = {"^": lambda s: s[::-1], "W": lambda s: [list(s)], "!": lambda s: s + [len(s)],
+            "„": lambda s: s[1:] + s[:1], "‟": lambda s: s[-1:] + s[:-1], "Ȯ": lambda s: s + [s[-2]]}[key](list(st))
+    ctx = Context(); stack = list(st); ctx.stacks.append(stack); ctx.inputs[0][0] = [9, 8]
+    ns = dict(vars(M)); ns["stack"] = stack; ns["ctx"] = ctx
+    try:
+        with alarm(2):
+            exec(elements[key][0], ns)
+    except BaseException as ex:  # noqa: BLE001
+        return False, f"{key} on a stack of {len(st)} entries {inp['stack']} raised {type(ex).__name__}: {ex}"
+    got = [snapshot(x) for x in stack]
+    return got == [snapshot(x) for x in want], f"{key} on {inp['stack']}: stack afterwards {got}, documented result {[snapshot(x) for x in want]}"
+
+
+ORACLES = {"whole_stack": o_whole, "prefix_untouched": o_prefix, "function_value_applied": o_callsite}
 
 VALUES = [0, 1, 2, 3, -1, 5, ["R", 1, 2], ["R", -3, 2], "ab", "", "a b", ["l", [1, 2, 3]], ["l", []], ["l", [["l", [1, 2]], ["l", [3]]]], ["l", ["a", "bc"]],
           ["L", [1, 2, 3]], ["L", []], ["F", "d"], ["F", "+"], ["l", [["F", "d"]]], ["l", [7, ["F", "+"]]], ["L", [["F", "+"], 2]]]
@@ -128,6 +146,17 @@ def run(ctx, widen=False):
                 args = [VALUES[rng.randrange(len(VALUES))] for _ in range(7)]     # a modifier consumes its own operand plus the elements' arities
                 cases.append({"key": prog_key, "args": args, "mod": m}); mc += 1
     ctx.bump("modifier cases", mc)
+    # the whole-stack operations against what they are documented to do, at every depth 0..4 (depth 1 is where a bare item and a
+    # one-item list are easily confused)
+    wvals = [5, ["l", [1, 2, 3]], "ab", ["l", []], 0, ["l", [["l", [1]], 2]]]
+    wcases = []
+    for key in ("^", "W", "!", "„", "‟", "Ȯ"):
+        lo = 2 if key in ("„", "‟", "Ȯ") else 0
+        for d in range(lo, 5):
+            for t in (itertools.product(wvals, repeat=d) if d <= 2 else [tuple(rng.choice(wvals) for _ in range(d)) for _ in range(12)]):
+                wcases.append({"key": key, "stack": list(t)})
+    ctx.bump("whole-stack operation cases", len(wcases))
+    ctx.check_many("whole_stack", wcases, procs=1)
     ctx.check_many("prefix_untouched", cases)
     # the `pop` helper itself against its Lean model (object of pop_frame / pop_retain / pop_short): every count 0..5 on every
     # stack of length 0..5, the four flag combinations; the inputs are 100, 101, … so a read is visible in the result
